@@ -24,3 +24,10 @@ CHECKS = {
         "note": PROOF_NOTE,
     },
 }
+
+# per-property entries contributed as tools/manifest.d/Cxx.json: {"category","technique","text","note"(optional)}
+import glob as _glob, json as _json, os as _os
+for _p in sorted(_glob.glob(_os.path.join(_os.path.dirname(_os.path.abspath(__file__)), "manifest.d", "C*.json"))):
+    _e = _json.load(open(_p))
+    _e.setdefault("note", PROOF_NOTE)
+    CHECKS[_os.path.basename(_p)[:-5]] = _e
